@@ -36,6 +36,7 @@ import (
 	"net"
 	"os"
 	"os/exec"
+	"reflect"
 	"sort"
 	"strconv"
 	"strings"
@@ -43,6 +44,7 @@ import (
 	"testing"
 	"testing/synctest"
 	"time"
+	"unicode/utf8"
 
 	"github.com/google/jsonschema-go/jsonschema"
 )
@@ -440,6 +442,8 @@ type gateGen struct {
 	fixedPath string
 	fixedKind int    // 0 absent, 1 null, 2 wrong
 	tool      string // when set, tools/call targets this tool
+	// spellPct: percentage of envelopes re-spelled as a foreign peer may legally write them (gateRespell)
+	spellPct int
 }
 
 var gateMetaVersions = []string{"2026-07-28", "2026-07-28", "2026-07-28", "2025-11-25", "2025-06-18", "2024-11-05", "2027-01-01", "2026-07-29", "2026-07-28x", "9", "", "1999-12-31", "draft"}
@@ -693,7 +697,242 @@ func (g *gateGen) msg(side, method string, k int, force string) gateMsg {
 	if !known {
 		m.tags = append(m.tags, "unknown-method")
 	}
+	if g.spellPct > 0 && rng.Intn(100) < g.spellPct {
+		mode := []int{gateSpellSolidus, gateSpellU, gateSpellWS, gateSpellDup, gateSpellSolidus | gateSpellU, gateSpellAll}[rng.Intn(6)]
+		m = gateSpelled(m, mode, rng)
+	}
 	return m
+}
+
+// ---------------------------------------------------------------------------------------------
+// foreign spellings
+//
+// A peer that is not this SDK may write the same JSON value differently from encoding/json: the solidus
+// as `\/` (PHP's json_encode does so by default), any character as `\uXXXX`, insignificant white space
+// between tokens, and a member more than once (decoders keep the last). The decoded value — hence the
+// descriptor the Lean side sees, and the property's answer — is the same; only `raw` changes.
+
+const (
+	gateSpellSolidus = 1 << iota // "/" written "\/" in member names and string values
+	gateSpellU                   // ASCII letters / punctuation written "\uXXXX" (either hex case) in member names and string values
+	gateSpellWS                  // blanks and tabs around tokens
+	gateSpellDup                 // members whose decoder rule is last-wins written twice, a decoy first
+	gateSpellAll = gateSpellSolidus | gateSpellU | gateSpellWS | gateSpellDup
+)
+
+type gateSpeller struct {
+	mode int
+	rng  *rand.Rand
+	used int // spellings actually applied (a text without "/" has nothing to escape)
+}
+
+func (sp *gateSpeller) ws(b *strings.Builder) {
+	if sp.mode&gateSpellWS == 0 {
+		return
+	}
+	for n := sp.rng.Intn(3); n > 0; n-- {
+		b.WriteByte(" \t"[sp.rng.Intn(2)])
+		sp.used |= gateSpellWS
+	}
+}
+
+// str writes a JSON string literal for s. key: a member name (escaped more eagerly).
+func (sp *gateSpeller) str(b *strings.Builder, s string, key bool) {
+	b.WriteByte('"')
+	uPct := 8
+	if key {
+		uPct = 22
+	}
+	for _, r := range s {
+		switch {
+		case r == '/' && sp.mode&gateSpellSolidus != 0 && sp.rng.Intn(4) != 0:
+			b.WriteString(`\/`)
+			sp.used |= gateSpellSolidus
+		case r >= 0x20 && r < 0x7f && sp.mode&gateSpellU != 0 && sp.rng.Intn(100) < uPct:
+			if sp.rng.Intn(2) == 0 {
+				fmt.Fprintf(b, `\u%04x`, r)
+			} else {
+				fmt.Fprintf(b, `\u%04X`, r)
+			}
+			sp.used |= gateSpellU
+		case r == '"' || r == '\\':
+			b.WriteByte('\\')
+			b.WriteRune(r)
+		case r < 0x20 || r == 0x7f || r == 0x2028 || r == 0x2029 || r == utf8.RuneError:
+			if r == utf8.RuneError {
+				b.WriteString(`\ufffd`)
+			} else {
+				fmt.Fprintf(b, `\u%04x`, r)
+			}
+		default:
+			b.WriteRune(r)
+		}
+	}
+	b.WriteByte('"')
+}
+
+// gateDupDecoys: members written twice (decoy first) — only where every decoder involved keeps the
+// last occurrence: string members of the envelope and of `_meta` (a map: the later value replaces).
+var gateDupDecoys = map[string]string{
+	"jsonrpc": `"1.0"`, "method": `"ping"`, MetaKeyProtocolVersion: `"1999-01-01"`,
+}
+
+func (sp *gateSpeller) val(b *strings.Builder, v any) {
+	switch x := v.(type) {
+	case nil:
+		b.WriteString("null")
+	case bool:
+		fmt.Fprintf(b, "%v", x)
+	case json.Number:
+		b.WriteString(x.String())
+	case string:
+		sp.str(b, x, false)
+	case []any:
+		b.WriteByte('[')
+		for i, e := range x {
+			if i > 0 {
+				b.WriteByte(',')
+			}
+			sp.ws(b)
+			sp.val(b, e)
+			sp.ws(b)
+		}
+		b.WriteByte(']')
+	case map[string]any:
+		keys := make([]string, 0, len(x))
+		for k := range x {
+			keys = append(keys, k)
+		}
+		sort.Strings(keys)
+		b.WriteByte('{')
+		first := true
+		member := func(k string, write func()) {
+			if !first {
+				b.WriteByte(',')
+			}
+			first = false
+			sp.ws(b)
+			sp.str(b, k, true)
+			sp.ws(b)
+			b.WriteByte(':')
+			sp.ws(b)
+			write()
+			sp.ws(b)
+		}
+		for _, k := range keys {
+			if decoy, ok := gateDupDecoys[k]; ok && sp.mode&gateSpellDup != 0 {
+				if _, isStr := x[k].(string); isStr {
+					member(k, func() { b.WriteString(decoy) })
+					sp.used |= gateSpellDup
+				}
+			}
+			member(k, func() { sp.val(b, x[k]) })
+		}
+		b.WriteByte('}')
+	default:
+		j, _ := json.Marshal(x)
+		b.Write(j)
+	}
+}
+
+// gateRespell rewrites a JSON text in the given spelling mode; used reports the families applied.
+func gateRespell(raw string, mode int, rng *rand.Rand) (out string, used int) {
+	dec := json.NewDecoder(strings.NewReader(raw))
+	dec.UseNumber()
+	var v any
+	if dec.Decode(&v) != nil {
+		return raw, 0
+	}
+	sp := &gateSpeller{mode: mode, rng: rng}
+	var b strings.Builder
+	// (no blanks after the top-level value: ioConn's reader wants the line end right behind it — framing
+	// is the wire engine's subject, not the gate's)
+	sp.ws(&b)
+	sp.val(&b, v)
+	// self-check: the re-spelled text denotes the same value
+	var back any
+	d2 := json.NewDecoder(strings.NewReader(b.String()))
+	d2.UseNumber()
+	if d2.Decode(&back) != nil || !reflect.DeepEqual(v, back) {
+		panic("gateRespell: the re-spelled envelope does not decode to the same value: " + b.String())
+	}
+	return b.String(), sp.used
+}
+
+// gateSpelled: m with its envelope re-spelled, tagged with the families that were applied.
+func gateSpelled(m gateMsg, mode int, rng *rand.Rand) gateMsg {
+	raw, used := gateRespell(m.raw, mode, rng)
+	if used == 0 {
+		return m
+	}
+	m.raw = raw
+	m.tags = append(append([]string{}, m.tags...), "spell-esc")
+	for _, f := range []struct {
+		bit int
+		tag string
+	}{{gateSpellSolidus, "spell-solidus"}, {gateSpellU, "spell-u"}, {gateSpellWS, "spell-ws"}, {gateSpellDup, "spell-dup"}} {
+		if used&f.bit != 0 {
+			m.tags = append(m.tags, f.tag)
+		}
+	}
+	return m
+}
+
+// gateSpellSweep: the envelopes whose refusal depends on the per-request metadata being READ — incomplete
+// metadata, a version nobody serves, a method removed from the new protocol, an unsupported version on a
+// session that did the legacy handshake — each in every spelling family (and all of them at once).
+func gateSpellSweep() []gateCase {
+	var out []gateCase
+	edit := func(m gateMsg, f func(meta map[string]any) string) gateMsg {
+		var env map[string]any
+		d := json.NewDecoder(strings.NewReader(m.raw))
+		d.UseNumber()
+		d.Decode(&env)
+		params, _ := env["params"].(map[string]any)
+		meta, _ := params["_meta"].(map[string]any)
+		if meta == nil {
+			return m
+		}
+		m.meta = f(meta)
+		b, _ := json.Marshal(env)
+		m.raw = string(b)
+		return m
+	}
+	for _, mode := range []int{gateSpellSolidus, gateSpellU, gateSpellWS, gateSpellDup, gateSpellAll} {
+		for sc := 0; sc < 4; sc++ {
+			for rep := 0; rep < 2; rep++ {
+				g := &gateGen{rng: rand.New(rand.NewSource(int64(len(out)) + 4242))}
+				c := gateCase{id: fmt.Sprintf("sp%d", len(out)), tag: "spell", tr: "plain"}
+				k := 0
+				var m gateMsg
+				switch sc {
+				case 0: // incomplete metadata: no clientCapabilities
+					m = edit(g.msg("s", "tools/list", k, "new"), func(meta map[string]any) string {
+						delete(meta, MetaKeyClientCapabilities)
+						return fmt.Sprintf("v%s:missing:ok", hxs("2026-07-28"))
+					})
+				case 1: // a version nobody serves
+					m = edit(g.msg("s", "tools/call", k, "new"), func(meta map[string]any) string {
+						meta[MetaKeyProtocolVersion] = "2027-01-01"
+						return fmt.Sprintf("v%s:ok:ok", hxs("2027-01-01"))
+					})
+				case 2: // removed from the new protocol
+					m = g.msg("s", "ping", k, "new")
+				case 3: // legacy handshake first, then an unsupported per-request version
+					c.msgs = append(c.msgs, g.msg("s", "initialize", 0, "legacy"), g.msg("s", "notifications/initialized", 1, "legacy"))
+					k = 2
+					m = edit(g.msg("s", "tools/call", k, "new"), func(meta map[string]any) string {
+						meta[MetaKeyProtocolVersion] = "2027-01-01"
+						return fmt.Sprintf("v%s:ok:ok", hxs("2027-01-01"))
+					})
+				}
+				c.msgs = append(c.msgs, gateSpelled(m, mode, g.rng))
+				c.msgs = append(c.msgs, g.msg("s", "ping", len(c.msgs), "legacy"))
+				out = append(out, c)
+			}
+		}
+	}
+	return out
 }
 
 func (g *gateGen) serverCase(id string) gateCase {
@@ -1047,11 +1286,18 @@ func gateJoin(l []string) string {
 	return strings.Join(l, ",")
 }
 
+// gateEnvID: the envelope's id as the SDK will write it back (a string id in encoding/json's spelling,
+// whatever spelling the envelope used; a number as written).
 func gateEnvID(raw string) string {
 	var e struct {
 		ID json.RawMessage `json:"id"`
 	}
 	json.Unmarshal([]byte(raw), &e)
+	var s string
+	if len(e.ID) > 0 && e.ID[0] == '"' && json.Unmarshal(e.ID, &s) == nil {
+		b, _ := json.Marshal(s)
+		return string(b)
+	}
 	return string(e.ID)
 }
 
@@ -1582,6 +1828,9 @@ func gateCases(side string) []gateCase {
 	cases := gateCorpus(side)
 	if os.Getenv("VERIF_CASES") == "" {
 		cases = append(cases, gateSweep(side)...)
+		if side == "s" {
+			cases = append(cases, gateSpellSweep()...)
+		}
 	}
 	var n int
 	if side == "s" {
@@ -1594,7 +1843,7 @@ func gateCases(side string) []gateCase {
 		if side == "c" {
 			salt += 50_000_000
 		}
-		g := &gateGen{rng: verifRng(salt)}
+		g := &gateGen{rng: verifRng(salt), spellPct: 20}
 		if side == "s" {
 			cases = append(cases, g.serverCase(fmt.Sprintf("g%d", i)))
 		} else {
